@@ -96,6 +96,16 @@ def rank_program(nranks, variant):
         if variant == "two-rounds":
             out = y * recv(left, "u_corr")
             sends.append((13 * y, right, "u_corr"))
+        elif variant == "stored-crossing":
+            # three stored arrays computed before the exchange and used
+            # after it: several part outputs are named at the same moment
+            s1 = (x + 1).tagged(pt.tags.ImplStored())
+            s2 = (x * 2).tagged(pt.tags.ImplStored())
+            s3 = pt.sin(x).tagged(pt.tags.ImplStored())
+            sends = [(s1 + s2 + s3, right, "u_to_right"),
+                     (3 * x, left, "u_to_left"), (7 * x, left, "v_to_left"),
+                     (11 * x, right, "v_to_right")]
+            out = (y * s3 + s1 * s2).tagged(pt.tags.ImplStored())
         else:
             out = y * 2
         for data, dest, tag in sends:
